@@ -24,11 +24,13 @@ EXPR_CTX = {
     'ADM': lambda: W.ctx_of('ADM'),
     # context created for a cron trigger run (security.create_context)
     'B-trust': lambda: auth_context.MistralContext(
-        user_id='u', project_id='B', auth_token='t', is_trust_scoped=True,
+        user_id='u', project_id=W.PID['B'], auth_token='t',
+        is_trust_scoped=True,
         trust_id='trust-B'),
     # context set by periodic.process_cron_triggers_v2 before advancing
     'B-cron': lambda: auth_context.MistralContext(
-        user_id=None, project_id='B', auth_token=None, is_admin=False),
+        user_id=None, project_id=W.PID['B'], auth_token=None,
+        is_admin=False),
 }
 EXPR_CALLER = {'A': 'A', 'B': 'B', 'ADM': 'ADM', 'B-trust': 'B',
                'B-cron': 'B'}
